@@ -692,7 +692,12 @@ fn check_reduction(red: Red, a: &[f64], b: &[f64], rows: usize, got: f64) -> Res
             return Err(format!("prod = {:e} although a factor is exactly zero and all factors are finite", got));
         }
     }
-    let finite_in = a.iter().all(|x| x.is_finite()) && (red != Red::Dot || b.iter().all(|x| x.is_finite()));
+    let logdom = matches!(red, Red::LogSumExp | Red::LogSumExpM | Red::LogMeanExp | Red::LogMeanExpM);
+    let finite_in = if logdom {
+        a.iter().all(|x| x.is_finite() || *x == f64::NEG_INFINITY) && a.iter().any(|x| x.is_finite())
+    } else {
+        a.iter().all(|x| x.is_finite()) && (red != Red::Dot || b.iter().all(|x| x.is_finite()))
+    };
     if !finite_in {
         return Ok(()); // definition with non-finite inputs is not pinned down
     }
@@ -840,7 +845,28 @@ fn gen_vec(r: &mut Sm, n: usize, kind: u8) -> Vec<f64> {
                 _ => -(690.0 + r.f64() * 70.0),
             };
             let spread = *r.pick(&[0.0, 1e-3, 1.0, 5.0, 40.0]);
-            (0..n).map(|_| base - r.f64() * spread).collect()
+            let mut v: Vec<f64> = (0..n).map(|_| base - r.f64() * spread).collect();
+            // one dominant entry, all the others in a tight cluster c below it: whether the cluster
+            // matters is decided by n * exp(-c) against the rounding bound, not by exp(-c) alone
+            if n >= 2 && r.chance(if n > 2000 { 0.5 } else { 0.15 }) {
+                let c = *r.pick(&[3.0, 20.0, 25.0, 28.0, 30.5, 31.5, 32.001, 32.5, 33.0, 34.0, 35.0, 36.5, 38.0, 45.0, 700.0, 745.2]);
+                let top = r.below(n as u64) as usize;
+                for (i, x) in v.iter_mut().enumerate() {
+                    *x = if i == top { base } else { base - c - r.f64() * 1e-3 };
+                }
+            }
+            // log of probability zero: -inf entries contribute exactly 0 to the sum of exponentials
+            // (at least one entry stays finite; with none the definition gives log 0, not generated)
+            if n >= 2 && r.chance(0.25) {
+                let p = *r.pick(&[0.1, 0.5, 0.9]);
+                let keep = r.below(n as u64) as usize;
+                for (i, x) in v.iter_mut().enumerate() {
+                    if i != keep && r.chance(p) {
+                        *x = f64::NEG_INFINITY;
+                    }
+                }
+            }
+            v
         }
         // product-friendly
         3 => (0..n).map(|_| (0.25 + r.f64() * 3.75) * if r.chance(0.3) { -1.0 } else { 1.0 }).collect(),
